@@ -2032,3 +2032,12 @@ mut(
 """,
     mention=("insert",),
 )
+mut(
+    "c12-appended-target-glued-to-the-last-line-again",
+    "C12",
+    "C12.append",
+    "cdd/shared/emit/file.py",
+    '                    src = "\\n\\n" + src\n',
+    "                    pass\n",
+    mention=("line of its own",),
+)
